@@ -12,11 +12,11 @@
 (* (C20); no stuck state = every access stays inside the frame it          *)
 (* addresses (C03).                                                        *)
 (***************************************************************************)
-EXTENDS Integers, Sequences, FiniteSets, TLC, Json, IOUtils
+EXTENDS Integers, Sequences, FiniteSets, TLC, Json, IOUtils, TheoVMCore
 
 Progs == JsonDeserialize(IOEnv.PROGS)       \* sequence of dumped programs
 NP == Len(Progs)
-MaxWord == 2147483647                        \* 2^31 - 1
+MaxWord == WordMax                           \* 2^31 - 1
 
 Code(p) == Progs[p].code
 NI(p) == Len(Progs[p].code)
@@ -49,53 +49,11 @@ TablesOK(p) ==
   /\ \A i \in 0..(NI(p) - 1) : Ins(p, i).op \in BreakKind => i \in SiteIdx(p)
   /\ \A loc \in Locs(p) : loc[1] # "__standards__" /\ loc[2] >= 1
 
-\* ---- word arithmetic (C20) ---------------------------------------------------------------------
-Overflows(v, c) == c > 0 /\ v > MaxWord - c
-AddWord(v, c) == IF c <= 0 THEN (IF v + c > 0 THEN v + c ELSE 0)
-                 ELSE IF v <= MaxWord - c THEN v + c ELSE MaxWord   \* saturating; never forms an out-of-range sum
-
-\* ---- one instruction, as a function of the machine state -----------------------------------------
-\* opsq: current opcodes (only break kinds ever differ from the pristine code); operands always come
-\* from the pristine code, as in the VM.  AW(v, c) is the addition used (trace specs bind overflow values).
-Zeros(n) == [k \in 1..n |-> 0]
-B2S(b) == IF b THEN "true" ELSE "false"
-StepF(p, opsq, ip, data, stack, stp, AW(_, _)) ==
-  LET ins == Ins(p, ip)
-      op == opsq[ip + 1]
-      d == Len(stack)
-      top == stack[d]
-      RegOK(fr, r) == r >= 0 /\ r < fr.size /\ fr.base + r < Len(data)
-      W(fr, r) == data[fr.base + r + 1]
-      Bad == [def |-> FALSE, ip |-> ip, data |-> data, stack |-> stack, stop |-> FALSE]
-      R(nip, nd, ns, s) == IF InCode(p, nip) THEN [def |-> TRUE, ip |-> nip, data |-> nd, stack |-> ns, stop |-> s] ELSE Bad
-  IN
-  IF ~InCode(p, ip) THEN Bad ELSE
-  CASE op = "PB" -> R(ip + 1, data, stack, stp)
-    [] op = "BRK" -> R(ip + 1, data, stack, TRUE)
-    [] op = "HALT" -> R(ip, data, stack, TRUE)
-    [] op = "ADD" -> IF d >= 1 /\ RegOK(top, ins.a) /\ RegOK(top, ins.b)
-                     THEN R(ip + 1, [data EXCEPT ![top.base + ins.a + 1] = AW(W(top, ins.b), ins.c)], stack, FALSE) ELSE Bad
-    [] op = "TEST" -> IF d >= 1 /\ RegOK(top, ins.a) /\ RegOK(top, ins.b) /\ RegOK(top, ins.c)
-                      THEN R(ip + 1, [data EXCEPT ![top.base + ins.a + 1] = IF W(top, ins.b) = W(top, ins.c) THEN 0 ELSE 1], stack, FALSE) ELSE Bad
-    [] op = "CONST" -> IF d >= 1 /\ RegOK(top, ins.a)
-                       THEN R(ip + 1, [data EXCEPT ![top.base + ins.a + 1] = ins.b], stack, FALSE) ELSE Bad
-    [] op = "JMP" -> R(ip + ins.a, data, stack, FALSE)
-    [] op = "JMPC" -> IF d >= 1 /\ RegOK(top, ins.b)
-                      THEN R(IF W(top, ins.b) = 0 THEN ip + ins.a ELSE ip + 1, data, stack, FALSE) ELSE Bad
-    [] op = "PREP" -> IF ins.a >= 0
-                      THEN R(ip + 1, data \o Zeros(ins.a),
-                             Append(stack, [base |-> Len(data), size |-> ins.a, rt |-> ins.c, ra |-> -1, map |-> ins.b]), FALSE)
-                      ELSE Bad
-    [] op = "ARG" -> IF d >= 2 /\ RegOK(top, ins.a) /\ RegOK(stack[d - 1], ins.b)
-                     THEN R(ip + 1, [data EXCEPT ![top.base + ins.a + 1] = W(stack[d - 1], ins.b)], stack, FALSE) ELSE Bad
-    [] op = "EXEC" -> IF d >= 1 THEN R(ins.a, data, [stack EXCEPT ![d].ra = ip + 1], FALSE) ELSE Bad
-    [] op = "RET" -> IF d >= 2 /\ RegOK(top, ins.a) /\ RegOK(stack[d - 1], top.rt)
-                     THEN R(top.ra,
-                            \* the caller's word is written, then the callee's frame is released (C19)
-                            SubSeq([data EXCEPT ![stack[d - 1].base + top.rt + 1] = W(top, ins.a)], 1, top.base),
-                            SubSeq(stack, 1, d - 1), FALSE)
-                     ELSE Bad
-    [] OTHER -> Bad
+\* ---- word arithmetic (C20) and the instruction semantics: module TheoVMCore ---------------------------------
+\* StepF: one instruction of program p as a function of the machine state.  opsq: current opcodes (only break kinds ever differ
+\* from the pristine code); operands always come from the pristine code, as in the VM.  AW(v, c) is the addition used
+\* (trace specs bind overflow values).
+StepF(p, opsq, ip, data, stack, stp, AW(_, _)) == StepP(Progs[p].code, opsq, ip, data, stack, stp, AW)
 
 VARIABLES p,         \* index of the loaded program
           ip, ops, data, stack, enabled, stepping,
